@@ -181,3 +181,124 @@ def estimators_post(S, I, variant):
         if not exc and not exc2:
             S.holds("bp strictly decreases as the margin grows", xcmp("<", rb2, rb))
             S.holds("cp strictly decreases as the margin grows", xcmp("<", rc2, rc))
+
+
+# ------------------------------------------------------------------ C04 / C15: the per-node choice of the search (find_best_audit)
+
+C3 = ["a", "b", "ab"]          # identifiers that are substrings of one another, as in real exports
+TAILS = tuple(("-".join(map(str, t)),) for n in (2, 3) for t in itertools.permutations(range(3), n))
+
+
+class LazyRow:
+    """row of the NEB matrix: each entry is None or an NEB assertion with a symbolic difficulty; decided when first read"""
+
+    def __init__(self, I, row, store):
+        self.I, self.row, self.store = I, row, store
+
+    def py_getitem(self, I, key):
+        k = (self.row, I.concrete_key(key))
+        if k not in self.store:
+            c = ctx()
+            if c.decide(z3.Bool(f"neb[{k[0]}][{k[1]}].exists")):
+                a = I.call(I.get(RU, "NEBAssertion"), ["con", k[0], k[1]], {})
+                a.attrs["difficulty"] = XR.finvar(f"neb[{k[0]}][{k[1]}].difficulty")
+                self.store[k] = a
+            else:
+                self.store[k] = None
+        return self.store[k]
+
+
+@script(["C04", "C15"], "find_best_audit/post (3 candidates, every tail; any number of ballots, symbolic NEB matrix and difficulty function)",
+        variants=TAILS)
+def find_best_audit_post(S, I, variant):
+    c = ctx()
+    tail = [C3[int(k)] for k in variant[0].split("-")]
+    elim = [x for x in C3 if x not in tail]
+    NB = S.integer("n_ballots", lo=0)
+    TB = S.integer("tot_ballots", lo=0)
+    HAS = {k: z3.Function(f"listed_{k}", z3.IntSort(), z3.BoolSort()) for k in C3}
+    RK = {k: z3.Function(f"rank_{k}", z3.IntSort(), z3.IntSort()) for k in C3}
+
+    def make(i):
+        i = zi(i)
+        for k in C3:
+            c.assume(RK[k](i) >= 0)                       # positions are 0-based
+        for a, b in itertools.combinations(C3, 2):        # duplicate-free ranking
+            c.assume(z3.Implies(z3.And(HAS[a](i), HAS[b](i)), RK[a](i) != RK[b](i)))
+        return OptDict(list(C3), {k: mkbool(HAS[k](i)) for k in C3}, {k: SInt(RK[k](i)) for k in C3})
+
+    ballots = SymObjList(iterm(NB), make)
+    contest = I.call(I.get(RU, "Contest"), ["con", list(C3), C3[0], TB], {})
+    store = {}
+    nebs = {x: LazyRow(I, x, store) for x in C3}
+    EST = z3.Function("asn", z3.IntSort(), z3.IntSort(), z3.IntSort(), z3.IntSort(), z3.RealSort())
+    asn = Builtin("asn_func", lambda I_, a, k: XR(EST(*[zi(iterm(x)) for x in a])))
+    node = I.call(I.get(RU, "RaireNode"), [list(tail)], {})
+    fn = I.get(RU, "find_best_audit")
+    r, exc = guard(S, I, lambda: I.call(fn, [contest, ballots, nebs, node, asn], {}))
+    if exc:
+        return
+
+    # spec: tallies in the context where `elim` are eliminated
+    def votes(cand, i):
+        i = zi(i)
+        return z3.And(HAS[cand](i), *[z3.Or(z3.Not(HAS[a](i)), RK[a](i) > RK[cand](i)) for a in tail if a != cand])
+
+    tally = {x: SymArr(iterm(NB), (lambda x: (lambda i: mkint(iite(votes(x, i), 1, 0))))(x), "int").fold("+") for x in tail}
+    # every sum the code formed is a sum over all ballots of an indicator that agrees pointwise with the spec of one candidate
+    code_tally = {}
+    j = z3.Int(c.fresh("jb"))
+    for (res, arr) in I.trace.get("sum", []):
+        c.assume(z3.And(j >= 0, j < zi(NB)))
+        hit = None
+        el = arr.at(j)
+        for x in tail:
+            sv = z3.Solver()
+            sv.set("rlimit", 30000000)        # deterministic budget (the query is a few case distinctions over one ballot)
+            for h in c.hyps():
+                sv.add(h)
+            sv.add(z3.Not(zb(band(icmp("==", arr.length, NB), icmp("==", el, iite(votes(x, j), 1, 0))))))
+            if sv.check() == z3.unsat:
+                hit = x
+        if hit is None:
+            S.holds("every tally formed is the count of ballots whose first standing preference is some candidate of the tail", False)
+            return
+        c.assume(icmp("==", res, tally[hit].at(iterm(NB))))       # extensionality of the sum (same summands, same length)
+        code_tally[hit] = res
+    T = {x: tally[x].at(iterm(NB)) for x in tail}
+    first = tail[0]
+    best = node.attrs["best_assertion"]
+    # the assertions that can rule out every outcome ending in `tail` (RAIRE): NEB(first, later), NEB(eliminated, any in tail),
+    # and NEN(first, later | eliminated) when first's tally exceeds later's
+    app_neb = [(first, l) for l in tail[1:]] + [(e, t) for e in elim for t in tail]
+    cand_list = []
+    for (w, l) in app_neb:
+        # reading the matrix entry decides (forks on) its existence
+        a = nebs[w].py_getitem(I, l)
+        if a is not None:
+            cand_list.append(("NEB", w, l, a.attrs["difficulty"], a))
+    for l in tail[1:]:
+        if c.decide(icmp(">", T[first], T[l])):
+            d = XR(EST(zi(iterm(T[first])), zi(iterm(T[l])), zi(iterm(isub(TB, iadd(T[first], T[l])))), zi(iterm(TB))))
+            cand_list.append(("NEN", first, l, d, None))
+    if not cand_list:
+        S.holds("no applicable assertion exists => the node gets none", best is None)
+        return
+    S.holds("an applicable assertion exists => the node gets one", best is not None)
+    if best is None:
+        return
+    S.holds("the node's estimate is its assertion's difficulty", bterm(mkbool(I.truth_term(I.equal(node.attrs["estimate"], best.attrs["difficulty"])))))
+    for (kind, w, l, d, a) in cand_list:
+        S.holds(f"chosen difficulty <= difficulty of {kind}({w},{l})", xcmp("<=", best.attrs["difficulty"], d))
+    is_nen = best.cls.name == "NENAssertion"
+    if is_nen:
+        ok = [x for x in cand_list if x[0] == "NEN" and x[1] == best.attrs["winner"] and x[2] == best.attrs["loser"]]
+        S.holds("a chosen NEN is NEN(first in tail, a later candidate | exactly the candidates outside the tail) with first's tally larger",
+                bool(ok) and list(best.attrs["eliminated"]) == elim and best.attrs["contest"] == "con")
+        if ok:
+            S.holds("its reported tallies are the tallies on the ballots, winner strictly larger; difficulty = asn(tallies)",
+                    band(icmp("==", best.attrs["votes_for_winner"], T[first]), icmp("==", best.attrs["votes_for_loser"], T[ok[0][2]]),
+                         icmp(">", best.attrs["votes_for_winner"], best.attrs["votes_for_loser"]), xsame(best.attrs["difficulty"], ok[0][3])))
+            S.holds("it records that it rules out exactly this tail", set(best.attrs["rules_out"]) == {tuple(tail)})
+    else:
+        S.holds("a chosen NEB is one of the applicable matrix entries", any(best is x[4] for x in cand_list if x[0] == "NEB"))
